@@ -20,13 +20,13 @@ vars == <<i, l, st, v>>
 TICK == 1000000
 
 IsUngetByte(b) == b \in 1..26
-St0 == [wireIn |-> <<>>, wireOut |-> <<>>, keysIn |-> <<>>, keysOut |-> 0, ungetIn |-> <<>>, ungetOut |-> <<>>, order |-> <<>>,
+St0 == [raw |-> FALSE, wireIn |-> <<>>, wireOut |-> <<>>, keysIn |-> <<>>, keysOut |-> 0, ungetIn |-> <<>>, ungetOut |-> <<>>, order |-> <<>>,
         trig |-> <<>>, ts |-> <<>>, sched |-> <<>>, sigs |-> 0, tswrites |-> 0, tsdone |-> {},
         gone |-> {}, schedOut |-> <<>>,
         open |-> FALSE, T |-> -1, t0 |-> 0, deliverable |-> FALSE, schedAtStart |-> FALSE, bigRead |-> FALSE,
         wireAtStart |-> 0, ticksInReq |-> 0, bigN |-> 0, stalled |-> FALSE]
 
-Init == i \in 1..Len(Traces) /\ l = 1 /\ st = St0 /\ v = <<"ok", "", 0>>
+Init == i \in 1..Len(Traces) /\ l = 1 /\ st = [St0 EXCEPT !.raw = (Traces[i].raw = 1)] /\ v = <<"ok", "", 0>>
 Fail(clause) == IF v[1] = "ok" /\ clause # "ok" THEN <<"fail", clause, l>> ELSE v
 
 Pending(q, gone) == SelectSeq(q, LAMBDA x : x \notin gone)
@@ -47,9 +47,11 @@ Deliverable(s, t) ==
 \* keypress level: the wire keys delivered (keys made of unget bytes aside) must be exactly the next
 \* keypresses that arrived, one delivered key per arrived keypress - never fragments, never merged
 WireKeys(keys) == SelectSeq(keys, LAMBDA k : k # <<>> /\ ~(\A j \in 1..Len(k) : IsUngetByte(k[j])))
+\* (s.raw: the history's arrivals hold sequences outside the key tables - how those are cut into keypresses is nobody's
+\* promise, only the byte-level clauses apply)
 KeypressVerdict(s, keys) ==
   LET wk == WireKeys(keys)
-  IN IF s.keysOut + Len(wk) <= Len(s.keysIn) /\ SubSeq(s.keysIn, s.keysOut + 1, s.keysOut + Len(wk)) = wk THEN "ok"
+  IN IF s.raw THEN "ok" ELSE IF s.keysOut + Len(wk) <= Len(s.keysIn) /\ SubSeq(s.keysIn, s.keysOut + 1, s.keysOut + Len(wk)) = wk THEN "ok"
      ELSE "KeypressesAsTheyArrived"
 KeyBytesVerdict(s, bytes) ==
   LET u == SelectSeq(bytes, IsUngetByte)
